@@ -38,6 +38,10 @@ def beval(e, env):
     s = U(e)
     if s in env and isinstance(env[s], bool):
         return env[s]
+    if isinstance(e, ast.Name) and ('@' + e.id) in env:
+        # local bound to an expression that was unknown when assigned
+        return beval(_alias(env, e.id), {k: v for k, v in env.items()
+                                          if k != '@' + e.id})
     if isinstance(e, ast.UnaryOp) and isinstance(e.op, ast.Not):
         v = beval(e.operand, env)
         return None if v is None else (not v)
@@ -64,9 +68,15 @@ def beval(e, env):
         if isinstance(e.ops[0], ast.Is) and isinstance(r, ast.Constant) \
                 and isinstance(r.value, bool) and lv is not None:
             return lv is r.value
+        if isinstance(e.ops[0], ast.IsNot) and isinstance(r, ast.Constant) \
+                and isinstance(r.value, bool) and lv is not None:
+            return lv is not r.value
         if isinstance(e.ops[0], (ast.Eq,)) and lv is not None \
                 and rv is not None:
             return lv == rv
+        if isinstance(e.ops[0], (ast.NotEq,)) and lv is not None \
+                and rv is not None:
+            return lv != rv
     # method returning a tracked boolean field, e.g. self.has_sensitivities()
     if isinstance(e, ast.Call) and not e.args and not e.keywords:
         key = U(e)
@@ -75,11 +85,35 @@ def beval(e, env):
     return None
 
 
+def _alias(env, name):
+    return ast.parse(env['@' + name], mode='eval').body
+
+
 def learn(test, env, val):
     """Record what a taken branch tells about simple flags."""
     t = test
     if isinstance(t, ast.UnaryOp) and isinstance(t.op, ast.Not):
         return learn(t.operand, env, not val)
+    if isinstance(t, ast.Call) and U(t.func) == 'bool' and len(t.args) == 1:
+        return learn(t.args[0], env, val)
+    if isinstance(t, ast.Name) and ('@' + t.id) in env:
+        a = _alias(env, t.id)
+        sub = {k: v for k, v in env.items() if k != '@' + t.id}
+        learn(a, sub, val)
+        sub['@' + t.id] = env['@' + t.id]
+        env.clear()
+        env.update(sub)
+        return None
+    if isinstance(t, ast.Compare) and len(t.ops) == 1 and isinstance(
+            t.ops[0], (ast.Eq, ast.NotEq, ast.Is, ast.IsNot)):
+        # comparison of a flag with a known boolean
+        l, r = t.left, t.comparators[0]
+        for a, b in ((l, r), (r, l)):
+            bv = beval(b, env)
+            if bv is not None and beval(a, env) is None:
+                same = isinstance(t.ops[0], (ast.Eq, ast.Is))
+                return learn(a, env, (bv if val else not bv) if same
+                             else ((not bv) if val else bv))
     if isinstance(t, (ast.Name, ast.Attribute)):
         env[U(t)] = val
     elif isinstance(t, ast.Call) and not t.args and not t.keywords:
@@ -233,10 +267,15 @@ class Walker:
             st.env[key + ' is None'] = True
             st.env.pop(key, None)
         else:
+            st.env.pop('@' + key, None)
             if v is not None:
                 st.env[key] = v
             else:
                 st.env.pop(key, None)
+                if isinstance(t, ast.Name) and any(isinstance(
+                        x, (ast.Call, ast.Attribute)) for x in ast.walk(
+                        value)) and len(U(value)) < 200:
+                    st.env['@' + key] = U(value)
             st.env.pop(key + ' is None', None)
         self.on_assign(t, value, st, frame)
 
@@ -255,6 +294,13 @@ class Walker:
         for c in calls:
             nxt = []
             for s0, _ in states:
+                if isinstance(c.func, ast.Attribute) and not \
+                        c.func.attr.startswith(('has_', 'get_', 'n_', 'is_',
+                                                'supports_')):
+                    rtxt = U(c.func.value)
+                    for k in [k for k, v in s0.env.items()
+                              if k.startswith('@') and rtxt in str(v)]:
+                        del s0.env[k]
                 h = self.on_call(c, s0, frame)
                 if h == 'handled':
                     nxt.append((s0, None))
